@@ -1,5 +1,5 @@
 """C17 — emu-mps quantum-jump trajectories: noise plumbing (structural clauses)."""
-from ..rules import adapter, jump, noise, step, tdvp
+from ..rules import observables, adapter, jump, noise, step, tdvp
 
 META = {
     "title": "emu-mps quantum-jump trajectories reproduce Lindblad dynamics on average",
@@ -25,3 +25,5 @@ def check(ctx):
     tdvp.evolve_plumbing(ctx)
     ctx.floor("ROLE-noise", 8)
     adapter.noise_source(ctx)
+    step.step_mps(ctx)
+    observables.noise_term(ctx)
